@@ -85,6 +85,15 @@ func (db *Backend) metaBucket(tx *bolt.Tx) (*metaBucket, error) {
 	}, nil
 }
 
+// s3Bucket returns the bolt bucket that holds the objects of the S3 bucket
+// name, or nil if there is none. The bookkeeping bucket is not an S3 bucket.
+func (db *Backend) s3Bucket(tx *bolt.Tx, name string) *bolt.Bucket {
+	if bytes.Equal([]byte(name), db.metaBucketName) {
+		return nil
+	}
+	return tx.Bucket([]byte(name))
+}
+
 func (db *Backend) ListBuckets() ([]gofakes3.BucketInfo, error) {
 	var buckets []gofakes3.BucketInfo
 
@@ -142,7 +151,7 @@ func (db *Backend) ListBucket(name string, prefix *gofakes3.Prefix, page gofakes
 	objects := gofakes3.NewObjectList()
 
 	err := db.bolt.View(func(tx *bolt.Tx) error {
-		b := tx.Bucket([]byte(name))
+		b := db.s3Bucket(tx, name)
 		if b == nil {
 			return gofakes3.BucketNotFound(name)
 		}
@@ -310,7 +319,7 @@ func (db *Backend) GetObject(bucketName, objectName string, rangeRequest *gofake
 	var t boltObject
 
 	err := db.bolt.View(func(tx *bolt.Tx) error {
-		b := tx.Bucket([]byte(bucketName))
+		b := db.s3Bucket(tx, bucketName)
 		if b == nil {
 			return gofakes3.BucketNotFound(bucketName)
 		}
@@ -363,7 +372,7 @@ func (db *Backend) PutObject(
 	hash := md5.Sum(bts)
 
 	return result, db.bolt.Update(func(tx *bolt.Tx) error {
-		b := tx.Bucket([]byte(bucketName))
+		b := db.s3Bucket(tx, bucketName)
 		if b == nil {
 			return gofakes3.BucketNotFound(bucketName)
 		}
@@ -392,7 +401,7 @@ func (db *Backend) CopyObject(srcBucket, srcKey, dstBucket, dstKey string, meta 
 
 func (db *Backend) DeleteObject(bucketName, objectName string) (result gofakes3.ObjectDeleteResult, rerr error) {
 	return result, db.bolt.Update(func(tx *bolt.Tx) error {
-		b := tx.Bucket([]byte(bucketName))
+		b := db.s3Bucket(tx, bucketName)
 		if b == nil {
 			return gofakes3.BucketNotFound(bucketName)
 		}
@@ -405,7 +414,7 @@ func (db *Backend) DeleteObject(bucketName, objectName string) (result gofakes3.
 
 func (db *Backend) DeleteMulti(bucketName string, objects ...string) (result gofakes3.MultiDeleteResult, err error) {
 	err = db.bolt.Update(func(tx *bolt.Tx) error {
-		b := tx.Bucket([]byte(bucketName))
+		b := db.s3Bucket(tx, bucketName)
 		if b == nil {
 			return gofakes3.BucketNotFound(bucketName)
 		}
